@@ -421,6 +421,8 @@ class Program:
                         except struct.error:
                             return UNKNOWN
                 return UNKNOWN
+            if isinstance(fn, ast.Name) and fn.id in ("bytes", "bytearray") and not e.args and not e.keywords:
+                return b""
             if isinstance(fn, ast.Name) and fn.id in ("bytes", "len", "int", "bytearray") and len(e.args) == 1 and not e.keywords:
                 v = F(e.args[0])
                 if v is UNKNOWN:
